@@ -68,25 +68,33 @@ def run(chk, runs=200000, nproc=None, max_len=4096):
         dpath = os.path.join(work, 'dict')
         _dict_file(dpath)
         env = dict(os.environ, ASAN_OPTIONS='detect_leaks=0:abort_on_error=0:quarantine_size_mb=8', UBSAN_OPTIONS='print_stacktrace=1')
-        procs = []
-        budget = max(600, runs // 100)          # generous wall-clock watchdog (seconds); firing = inconclusive
-        for k in range(nproc):
-            log = open(os.path.join(work, 'log-%d' % k), 'wb')
-            cmd = [exe, '-runs=%d' % runs, '-max_len=%d' % max_len, '-timeout=25', '-rss_limit_mb=3000', '-seed=%d' % (chk.seed * 1000 + k + 1),
-                   '-dict=' + dpath, '-artifact_prefix=' + adir + '/k%d-' % k, '-print_final_stats=1', '-max_total_time=%d' % budget, cdir]
-            procs.append((subprocess.Popen(cmd, stdout=log, stderr=subprocess.STDOUT, env=env, cwd=work), log))
-        t0 = time.time()
-        for p, log in procs:
-            try:
-                p.wait(timeout=max(10, budget + 120 - (time.time() - t0)))
-            except subprocess.TimeoutExpired:
-                p.kill()
-                p.wait()
-                r.inconclusive.append('fuzzer process exceeded its wall-clock watchdog')
-            log.close()
+        # waves of bounded runs: a fuzzer process stops at its first artifact, and memory the library leaks accumulates
+        # inside a long-lived process (leaks are nobody's property here) -- so each process is short and is relaunched
+        chunk = min(runs, 100000)
+        waves = (runs + chunk - 1) // chunk
+        budget = max(600, chunk // 50)          # generous wall-clock watchdog per wave (seconds); firing = inconclusive
+        logs = []
+        for w in range(waves):
+            procs = []
+            for k in range(nproc):
+                lp = os.path.join(work, 'log-%d-%d' % (w, k))
+                logs.append(lp)
+                log = open(lp, 'wb')
+                cmd = [exe, '-runs=%d' % chunk, '-max_len=%d' % max_len, '-timeout=25', '-rss_limit_mb=3000', '-seed=%d' % (chk.seed * 100000 + w * 100 + k + 1),
+                       '-dict=' + dpath, '-artifact_prefix=' + adir + '/w%dk%d-' % (w, k), '-print_final_stats=1', '-max_total_time=%d' % budget, cdir]
+                procs.append((subprocess.Popen(cmd, stdout=log, stderr=subprocess.STDOUT, env=env, cwd=work), log))
+            t0 = time.time()
+            for p, log in procs:
+                try:
+                    p.wait(timeout=max(10, budget + 120 - (time.time() - t0)))
+                except subprocess.TimeoutExpired:
+                    p.kill()
+                    p.wait()
+                    r.inconclusive.append('fuzzer process exceeded its wall-clock watchdog')
+                log.close()
         execs, cov = 0, 0
-        for k in range(nproc):
-            txt = open(os.path.join(work, 'log-%d' % k), 'rb').read().decode('utf-8', 'replace')
+        for lp in logs:
+            txt = open(lp, 'rb').read().decode('utf-8', 'replace')
             m = re.search(r'stat::number_of_executed_units:\s*(\d+)', txt)
             if m:
                 execs += int(m.group(1))
@@ -117,13 +125,14 @@ def run(chk, runs=200000, nproc=None, max_len=4096):
             except subprocess.TimeoutExpired:
                 rep, rc = 'no result within 120 s when re-executed alone', None
             kind = a.split('-')[1] if '-' in a else 'crash'
-            if kind == 'timeout' or rc is None:
+            if rc is None:
                 key = 'hang:fuzz'
+            elif rc == 0:
+                # e.g. the rss limit reached by accumulation over many inputs, or a slow unit on a loaded machine: not a property of this input
+                r.stats['fuzz_artifacts_not_reproduced:' + kind] += 1
+                continue
             elif kind == 'oom':
                 key = 'oom:fuzz'
-            elif rc == 0:
-                r.stats['fuzz_artifacts_not_reproduced'] += 1
-                continue
             else:
                 key = D.sanitizer_key(rep, rc)
             variant, op, fmt, ext, lang, flags, args = decode(data)
@@ -131,7 +140,7 @@ def run(chk, runs=200000, nproc=None, max_len=4096):
             if key not in seen:
                 seen.add(key)
                 r.violate(key, 'libFuzzer artifact %s (%s): %s' % (a, kind, key), case, rep[-6000:])
-        r.samples.append(dict(fuzz=dict(processes=nproc, runs_each=runs, executions=execs, edges=cov, corpus_end=len(corpus_files), artifacts=len(arts))))
+        r.samples.append(dict(fuzz=dict(processes=nproc, runs_each=runs, waves=waves, executions=execs, edges=cov, corpus_end=len(corpus_files), artifacts=len(arts))))
     finally:
         shutil.rmtree(work, ignore_errors=True)
     chk.merge(r)
